@@ -52,6 +52,11 @@ func corpusAlphabet() []corpSym {
 		{name: "ext-unknown", mk: func(id uint32, s string) []byte {
 			return framed(sshFxpExtended, bstr(be32(nil, id), "nope@example.com"))
 		}},
+		// requests of the wrong kind for their handle: a READDIR on the file handle, a READ on the directory handle
+		{name: "readdir1", usesH1: true, mk: func(id uint32, s string) []byte { return mustPkt(&sshFxpReaddirPacket{ID: id, Handle: "1"}) }},
+		{name: "read2", mk: func(id uint32, s string) []byte {
+			return mustPkt(&sshFxpReadPacket{ID: id, Handle: "2", Offset: 0, Len: 3})
+		}},
 		{name: "close1", usesH1: true, closesH1: true, mk: func(id uint32, s string) []byte { return mustPkt(&sshFxpClosePacket{ID: id, Handle: "1"}) }},
 	}
 }
@@ -60,7 +65,11 @@ func corpusAlphabet() []corpSym {
 // schedule: a missing response is a deadlock, not a hang) and returns the run.
 func corpusRun(server string, alloc bool, prog []corpSym, fixedRoot string) (r *srvRun, dead bool, dump string) {
 	spec := &srvSpec{server: server, alloc: alloc, hangup: -1, fixedRoot: fixedRoot}
-	if server == "rs" {
+	if server == "rsput" {
+		// request server whose handlers do not implement OpenFileWriter: the read+write handle is served by fileput
+		spec.server, spec.putOnly = "rs", true
+	}
+	if spec.server == "rs" {
 		spec.files = map[string]string{"/f": progInit, "/g": "gggg"}
 		spec.setup = [][]byte{mustPkt(&sshFxpOpenPacket{ID: 1, Path: "/f", Pflags: sshFxfRead | sshFxfWrite}), mustPkt(&sshFxpOpendirPacket{ID: 2, Path: "/"})}
 	} else {
@@ -140,7 +149,7 @@ func init() {
 		res := reg.NewResult(c.Part)
 		depth := c.ArgInt("depth", 3)
 		var i int64
-		for _, server := range []string{"rs", "os"} {
+		for _, server := range []string{"rs", "rsput", "os"} {
 			for _, alloc := range []bool{false, true} {
 				corpusPrograms(depth, func(p []corpSym) {
 					i++
@@ -167,7 +176,7 @@ func init() {
 			}
 		}
 		res.States = res.Evaluations
-		res.Bound = fmt.Sprintf("all programs up to depth %d over %d symbols x 2 servers x allocator off/on", depth, len(corpusAlphabet()))
+		res.Bound = fmt.Sprintf("all programs up to depth %d over %d symbols x 3 servers (request server with and without OpenFileWriter handlers, os-backed) x allocator off/on", depth, len(corpusAlphabet()))
 		return res
 	})
 	reg.Part("C18/programs", func(c *reg.Ctx) *reg.Result {
@@ -175,7 +184,7 @@ func init() {
 		depth := c.ArgInt("depth", 3)
 		var i int64
 		pairRoot := ""
-		for _, server := range []string{"rs", "os"} {
+		for _, server := range []string{"rs", "rsput", "os"} {
 			corpusPrograms(depth, func(p []corpSym) {
 				if !deterministic(p, server) {
 					return
@@ -221,7 +230,7 @@ func init() {
 			})
 		}
 		res.States = res.Evaluations
-		res.Bound = fmt.Sprintf("all schedule-independent programs up to depth %d over %d symbols x 2 servers, with vs without allocator", depth, len(corpusAlphabet()))
+		res.Bound = fmt.Sprintf("all schedule-independent programs up to depth %d over %d symbols x 3 servers (request server with and without OpenFileWriter handlers, os-backed), with vs without allocator", depth, len(corpusAlphabet()))
 		return res
 	})
 	c02ExtraJobs = func(tier string) []reg.Job {
